@@ -1,0 +1,58 @@
+// Copyright ©2011-2012 The bíogo Authors. All rights reserved.
+// Use of this source code is governed by a BSD-style
+// license that can be found in the LICENSE file.
+
+//go:build verif
+// +build verif
+
+package morass
+
+import (
+	"encoding/gob"
+	"os"
+)
+
+// VerifHook is called at every named step of Push, write, Finalise, Pull and
+// Clear when the package is built with the verif tag. It may block (to hold the
+// calling goroutine at that step) and it may return an error, which is then
+// treated as the error of the file system or gob operation at that step.
+// It must be set before the Morass is used and not changed while it is in use.
+var VerifHook func(point string, n int) error
+
+func verifStep(point string, n int) error {
+	if h := VerifHook; h != nil {
+		return h(point, n)
+	}
+	return nil
+}
+
+// verifFailing is a stream on which every operation fails with err.
+type verifFailing struct{ err error }
+
+func (f verifFailing) Write([]byte) (int, error) { return 0, f.err }
+func (f verifFailing) Read([]byte) (int, error)  { return 0, f.err }
+
+// verifEncoder returns enc, or an encoder whose next Encode fails with the
+// error returned by the hook.
+func verifEncoder(point string, n int, enc *gob.Encoder) *gob.Encoder {
+	if err := verifStep(point, n); err != nil {
+		return gob.NewEncoder(verifFailing{err})
+	}
+	return enc
+}
+
+// verifDecoder returns dec, or a decoder whose next Decode fails with the
+// error returned by the hook.
+func verifDecoder(point string, n int, dec *gob.Decoder) *gob.Decoder {
+	if err := verifStep(point, n); err != nil {
+		return gob.NewDecoder(verifFailing{err})
+	}
+	return dec
+}
+
+// verifDiscard undoes the creation of a temporary file whose creation is
+// treated as failed.
+func verifDiscard(tf *os.File) {
+	tf.Close()
+	os.Remove(tf.Name())
+}
